@@ -80,7 +80,7 @@ def _make_member(osy, rng, n, mid, kind=None, dtype=None):
 
 
 def _comps_of(obj):
-    return [obj] if type(obj).__name__ == "Array" else list(obj._xyz.values())
+    return [obj] if type(obj).__name__ == "Array" else [getattr(obj, c_) for c_ in "xyz" if getattr(obj, c_) is not None]
 
 
 def _check_state(res, label, dg, model, rows, scalar, steps):
